@@ -208,6 +208,10 @@ def havoc_target(st: State, target):
         d, t = decl.find_field(cname, field)
         for k, s_ in zip(field_keys(d.short, field, t), t.sorts()):
             heap.set(k, z3.Const(fresh_name(f"hv_{field}_all"), z3.ArraySort(z3.IntSort(), s_)))
+    elif kind == "contentsarray":
+        t = target[1]
+        sort = z3.ArraySort(esort(t.e), z3.BoolSort()) if isinstance(t, TSet) else z3.SeqSort(esort(t.e))
+        heap.set(t.key(), z3.Const(fresh_name("hv_contents_all"), z3.ArraySort(z3.IntSort(), sort)))
     elif kind == "contents":
         _, c = target
         t = c.t
@@ -237,6 +241,8 @@ def target_locations(target):
         _, cname, field = target
         d, t = decl.find_field(cname, field)
         out += [(k, None) for k in field_keys(d.short, field, t)]  # None: every object
+    elif kind == "contentsarray":
+        out.append((target[1].key(), None))
     elif kind == "field":
         _, ref, field = target
         d, t = decl.find_field(ref.t.cls, field)
